@@ -121,8 +121,9 @@ class Ctx:
             return False
         ok, msg = regen()
         if not ok:
+            # the tie is broken (reported as such); the checks still run - on the last good Generated/*.v - because the
+            # oracles on the implementation are what finds the concrete failing input
             self.broken('translation', 'Generated/*.v could not be regenerated from /repo', msg)
-            return False
         coq_project()
         self.ready = True
         return True
